@@ -7,6 +7,7 @@ import (
 	"fmt"
 	"math/rand"
 	"net"
+	"sort"
 	"strings"
 	"unicode/utf8"
 
@@ -349,6 +350,45 @@ func run(c *core.Ctx) {
 		}
 		emit("json-type-error-with-typed-members-and-legacy-token", input{"{" + strings.Join(parts, ",") + "}", "user", goodConn, goodArgv})
 	}
+	// polyglots of the second kind: a JSON attribute object that decodes cleanly but lacks a required member (absent
+	// or empty), with a blank-delimited req=user@host token (and other legacy tokens) inside a string value: such a
+	// message is refused - nothing in it may be read as a legacy message
+	for i, n := 0, c.N(60, 1500); i < n; i++ {
+		members := map[string]string{"username": `"json-user"`, "hostname": `"json-host"`, "sshClientVersion": jstr(core.Pick(r, "9.9", "8.1", "1.0"))}
+		victim := core.Pick(r, "username", "hostname", "sshClientVersion")
+		if r.Intn(2) == 0 {
+			delete(members, victim)
+		} else {
+			members[victim] = `""`
+		}
+		tok := " req=" + genName(r) + "@" + genName(r) + core.Pick(r, " ", " SSHClientVersion=7.4 ", " HardKey=true IFVer=6 ", " SSHClientVersion=8.8 HardKey=true ")
+		var parts []string
+		for k, v := range members {
+			parts = append(parts, jstr(k)+":"+v)
+		}
+		sort.Strings(parts)
+		parts = append(parts, `"ifVer":7`)
+		switch r.Intn(3) {
+		case 0:
+			parts = append(parts, `"note":`+jstr(tok))
+		case 1:
+			parts = append(parts, `"exts":{"comment":`+jstr(tok)+`}`)
+		default:
+			other := core.Pick(r, "username", "hostname")
+			if other == victim {
+				other = "sshClientVersion"
+			}
+			for j := range parts {
+				if strings.HasPrefix(parts[j], jstr(other)+":") {
+					parts[j] = jstr(other) + ":" + jstr(tok)
+				}
+			}
+		}
+		if r.Intn(2) == 0 {
+			r.Shuffle(len(parts), func(a, b int) { parts[a], parts[b] = parts[b], parts[a] })
+		}
+		emit("json-incomplete-with-legacy-token", input{"{" + strings.Join(parts, ",") + "}", "user", goodConn, goodArgv})
+	}
 	emit("corpus", input{goodJSON, "user", "", goodArgv})
 	emit("corpus", input{goodJSON, "", goodConn, goodArgv})
 	emit("corpus", input{goodJSON, "user", goodConn, []string{"/usr/bin/gen-sign", "Regular"}})
@@ -377,7 +417,7 @@ func run(c *core.Ctx) {
 			if n >= 2 {
 				toks[n-2] = words[k/len(words)]
 			}
-			emit("argv-count", input{goodJSON, "user", goodConn, toks})                               // n separate arguments
+			emit("argv-count", input{goodJSON, "user", goodConn, toks})                                // n separate arguments
 			emit("argv-count", input{goodLegacy, "user", goodConn, []string{strings.Join(toks, " ")}}) // one argument with n-1 spaces
 			if n >= 3 {
 				emit("argv-count", input{goodJSON, "user", goodConn, []string{toks[0], strings.Join(toks[1:n-1], " "), toks[n-1]}})
